@@ -383,6 +383,10 @@ def worker(case: Dict[str, Any]) -> CaseResult:
         feats = list(feats) + ["scalar.config.strict_parse"]
     with core.Scratch() as root:
         cfg = write_case(root, sdl, queries, cfg_full, extra_files=extra_files or None)
+        if case["idx"] % 4 == 3:
+            # something was generated in this interpreter before: the same inputs with nothing configured
+            from ..genpkg import decoy_generations
+            stats["decoy_generations_before"] = decoy_generations(root, sdl, queries)
         with warnings.catch_warnings():
             warnings.simplefilter("ignore")
             # every 6th C04 case invokes the command the way the README shows it first: without a strategy argument
